@@ -44,7 +44,7 @@ ASSUMPTIONS = [
     'Python recursion limit: programs are run with maxStatements=200 and the recursion limit raised, so RecursionError (DESIGN section 6) '
     'cannot occur',
 ]
-TRUSTED = ['reference interpreter of scoping / calling convention / library injection (class Ref) and the closed-form binding oracle '
+TRUSTED = ['reference interpreter of scoping / calling convention / library injection (class Ref, with its own systemGlobalGet/Set) and the closed-form binding oracle '
            '(expected_binding) in harness/props/C04.py; the library functions themselves, the operators and value_string are shared '
            'with the implementation (they belong to C03/C13/C15)']
 
@@ -147,8 +147,26 @@ class Ref:
 
     # -- calls --------------------------------------------------------------------------------------------------------
 
+    def global_set(self, args):
+        # systemGlobalSet(name, value): "globals[name] = value", returns the value; a non-string name / too many arguments fail (null)
+        if not 1 <= len(args) <= 2 or not isinstance(args[0], str):
+            return None
+        value_ = args[1] if len(args) == 2 else None
+        self.g[args[0]] = value_
+        return value_
+
+    def global_get(self, args):
+        # systemGlobalGet(name, defaultValue): the global's value if the name is bound (also when bound to null), else the default
+        if not 1 <= len(args) <= 2 or not isinstance(args[0], str):
+            return None
+        return self.g[args[0]] if args[0] in self.g else (args[1] if len(args) == 2 else None)
+
     def call_value(self, fv, args):
         """the call wrapper (C05's subject, reproduced): a failing host function yields its failure value / null"""
+        if fv is self.library.SCRIPT_FUNCTIONS['systemGlobalSet']:
+            return self.global_set(list(args))
+        if fv is self.library.SCRIPT_FUNCTIONS['systemGlobalGet']:
+            return self.global_get(list(args))
         try:
             return fv(args, self.options)
         except (self.runtime.BareScriptRuntimeError, fw.impl()['parser'].BareScriptParserError):
@@ -490,6 +508,8 @@ def oracle_rest_fresh(nparams, nargs):
     g = {}
     options = {'globals': g, 'maxStatements': 1000}
     mods['runtime'].execute_script(mods['parser'].parse_script(text), options)
+    if not callable(g.get('ff')):
+        return [('toplevel-writes-caller-globals', 'globals["ff"] is the script function', progen.value_to_wire(g.get('ff')))]
     fn = g['ff']
     inner = [7.0]
     args = [1.0, 'a', inner, 4.0, 5.0][:nargs]
